@@ -1,6 +1,7 @@
 package sym
 
 import (
+	"unicode"
 	"os"
 	"time"
 	"fmt"
@@ -75,6 +76,102 @@ func (p *Program) installIntrinsics() {
 		m.schedPoint()
 		m.waitUntil(func() bool { return *c == 0 }, "WaitGroup.Wait")
 		m.hbAcquire(c)
+		return nil
+	}
+
+	// sync.Pool: Get may return any item Put before; the model returns the most recently Put
+	// one (the reuse that is hardest on the caller), else calls New.
+	in["(*sync.Pool).Put"] = func(fr *frame, a []Value) Value {
+		m := fr.m
+		p := a[0].(*Value)
+		if m.pools == nil {
+			m.pools = map[*Value][]Value{}
+		}
+		if it, ok := a[1].(Iface); ok && it.t == nil {
+			return nil
+		}
+		m.pools[p] = append(m.pools[p], a[1])
+		return nil
+	}
+	in["(*sync.Pool).Get"] = func(fr *frame, a []Value) Value {
+		m := fr.m
+		p := a[0].(*Value)
+		if items := m.pools[p]; len(items) > 0 {
+			v := items[len(items)-1]
+			m.pools[p] = items[:len(items)-1]
+			return v
+		}
+		pt := m.P.namedType("sync", "Pool")
+		newFn := (*p).(Struct)[fieldIndex(pt, "New")]
+		if isNilValue(newFn) {
+			return Iface{}
+		}
+		return m.call(fr, token.NoPos, newFn, nil)
+	}
+
+	// sync.Map as a plain map guarded by the engine's one-goroutine-at-a-time execution
+	// (every operation is a synchronisation point and a release/acquire edge)
+	smap := func(fr *frame, recv Value) *Map {
+		m := fr.m
+		p := recv.(*Value)
+		if m.syncMaps == nil {
+			m.syncMaps = map[*Value]*Map{}
+		}
+		mp := m.syncMaps[p]
+		if mp == nil {
+			mp = &Map{}
+			m.syncMaps[p] = mp
+		}
+		m.schedPoint()
+		m.hbAcquire(mp)
+		m.hbRelease(mp)
+		return mp
+	}
+	in["(*sync.Map).Load"] = func(fr *frame, a []Value) Value {
+		mp := smap(fr, a[0])
+		if i := fr.m.mapFind(mp, a[1]); i >= 0 {
+			return Tuple{mp.vals[i], trueT}
+		}
+		return Tuple{Iface{}, falseT}
+	}
+	in["(*sync.Map).Store"] = func(fr *frame, a []Value) Value {
+		fr.m.mapInsert(smap(fr, a[0]), a[1], a[2])
+		return nil
+	}
+	in["(*sync.Map).LoadOrStore"] = func(fr *frame, a []Value) Value {
+		mp := smap(fr, a[0])
+		if i := fr.m.mapFind(mp, a[1]); i >= 0 {
+			return Tuple{mp.vals[i], trueT}
+		}
+		fr.m.mapInsert(mp, a[1], a[2])
+		return Tuple{a[2], falseT}
+	}
+	in["(*sync.Map).LoadAndDelete"] = func(fr *frame, a []Value) Value {
+		mp := smap(fr, a[0])
+		if i := fr.m.mapFind(mp, a[1]); i >= 0 {
+			v := mp.vals[i]
+			fr.m.mapDelete(mp, a[1])
+			return Tuple{v, trueT}
+		}
+		return Tuple{Iface{}, falseT}
+	}
+	in["(*sync.Map).Delete"] = func(fr *frame, a []Value) Value {
+		fr.m.mapDelete(smap(fr, a[0]), a[1])
+		return nil
+	}
+	in["(*sync.Once).Do"] = func(fr *frame, a []Value) Value {
+		m := fr.m
+		p := a[0].(*Value)
+		if m.onces == nil {
+			m.onces = map[*Value]bool{}
+		}
+		m.schedPoint()
+		m.hbAcquire(p)
+		if !m.onces[p] {
+			m.onces[p] = true
+			m.call(fr, token.NoPos, a[1], nil)
+		}
+		m.hbRelease(p)
 		return nil
 	}
 
@@ -163,6 +260,20 @@ func (p *Program) installIntrinsics() {
 	in["sort.Strings"] = func(fr *frame, a []Value) Value {
 		fr.m.sortStrings(fr, a[0].(Slice))
 		return nil
+	}
+	in["unicode.ToLower"] = func(fr *frame, a []Value) Value {
+		r := a[0].(*Term)
+		if !r.IsConst() {
+			unsupportedf("unicode.ToLower of a symbolic rune")
+		}
+		return K(32, uint64(unicode.ToLower(rune(sx(r.val, 32)))))
+	}
+	in["unicode.ToUpper"] = func(fr *frame, a []Value) Value {
+		r := a[0].(*Term)
+		if !r.IsConst() {
+			unsupportedf("unicode.ToUpper of a symbolic rune")
+		}
+		return K(32, uint64(unicode.ToUpper(rune(sx(r.val, 32)))))
 	}
 	in["runtime.Gosched"] = func(fr *frame, a []Value) Value { fr.m.schedPoint(); return nil }
 	in["runtime.NumGoroutine"] = func(fr *frame, a []Value) Value {
